@@ -183,7 +183,20 @@ Q2_(z) == {Quant(qk, vs, Op(c, <<inner, extra>>)) :
       \cup {Op(c, <<inner, extra>>) : c \in {"and", "or", "iff", "implies"}, inner \in Q1_(z),
                                       extra \in {P, Op("equals", <<Bb, Cc>>)}}
       \cup {Op("not", <<inner>>) : inner \in Q1_(z)}
-LQ_(z) == Q1_(z) \cup Q2_(z)
+\* DIRECTLY nested quantifiers (same kind and alternations), the body relating variables of both binders
+NestVarSets == SmallVarSets \cup {<<BVar("q", TBool)>>, <<BVar("c", TBV(2))>>, <<BVar("y", TInt)>>}
+NestBodies == {Op("iff", <<P, Qs>>), Op("and", <<P, Op("not", <<Qs>>)>>), Op("bv_ult", <<Bb, Cc>>), Op("equals", <<Bb, Cc>>),
+               Op("le", <<Xx, Yy>>), Op("lt", <<Yy, Xx>>)}
+Q3_(z) == {Quant(q1, vs1, Quant(q2, vs2, bd)) : q1 \in {"forall", "exists"}, q2 \in {"forall", "exists"},
+                                                vs1 \in NestVarSets, vs2 \in NestVarSets, bd \in NestBodies}
+      \cup {Quant(q1, vs1, Op("not", <<Quant(q2, vs2, bd)>>)) : q1 \in {"forall", "exists"}, q2 \in {"forall", "exists"},
+                                                vs1 \in {<<BVar("p", TBool)>>, <<BVar("b", TBV(2))>>},
+                                                vs2 \in {<<BVar("q", TBool)>>, <<BVar("c", TBV(2))>>},
+                                                bd \in {Op("iff", <<P, Qs>>), Op("bv_ult", <<Bb, Cc>>)}}
+      \cup {Quant(q1, <<BVar("p", TBool)>>, Quant(q2, <<BVar("q", TBool)>>, Quant(q3, <<BVar("b", TBV(2))>>,
+                    Op("or", <<Op("iff", <<P, Qs>>), Op("bv_ult", <<Bb, Cc>>)>>)))) :
+                q1 \in {"forall", "exists"}, q2 \in {"forall", "exists"}, q3 \in {"forall", "exists"}}
+LQ_(z) == Q1_(z) \cup Q2_(z) \cup Q3_(z)
 
 
 \* ---------------------------------------------------------------------------
@@ -264,6 +277,8 @@ LSTerms ==
      \* the six characters \u{41}; a\u0041; e-acute; TAB; GREEK ALPHA + backslash
      Op("equals", <<Op("str_length", <<StrC(<<92, 117, 123, 52, 49, 125>>)>>), IntC(6)>>),
      Op("equals", <<Sym("s", TString), StrC(<<97, 92, 117, 48, 48, 52, 49>>)>>),
+     Op("equals", <<Op("str_length", <<StrC(<<97, 92, 117, 48, 48, 52, 49>>)>>), IntC(7)>>),
+     Op("str_prefixof", <<StrC(<<92, 117, 98, 101, 101, 102>>), StrC(<<92, 117, 98, 101, 101, 102, 92, 117, 123, 55, 125>>)>>),
      Op("str_prefixof", <<StrC(<<233>>), Op("str_concat", <<StrC(<<233, 9>>), Sym("s", TString)>>)>>),
      Op("equals", <<Op("str_length", <<StrC(<<945, 92>>)>>), IntC(2)>>)}
 
